@@ -9,21 +9,34 @@ VF_GHOSTS
   void contract_io_##NAME(const SELF_T *self, vf_stream *f)                                                            \
   __CPROVER_requires(vf_exc == 0 && __CPROVER_r_ok(self, sizeof(*self)) && __CPROVER_rw_ok(f, sizeof(*f)))             \
   __CPROVER_assigns(f->pos, f->len, f->fail, f->eof, vf_io_error_seen)                                                 \
-  __CPROVER_ensures(vf_exc == 0)                                                                                       \
+  __CPROVER_ensures(vf_exc == 0 && f->eof == __CPROVER_old(f->eof)) /* output operations never set eofbit */           \
   __CPROVER_ensures(__CPROVER_old(f->fail) ==> f->fail)                                                                \
   __CPROVER_ensures((f->fail && !__CPROVER_old(f->fail)) ==> vf_io_error_seen)                                         \
   __CPROVER_ensures(__CPROVER_old(vf_io_error_seen) ==> vf_io_error_seen)                                              \
   __CPROVER_ensures(vf_io_error_seen ==> (__CPROVER_old(vf_io_error_seen) || f->fail));
 
 IO_CONTRACT(Header__write, struct Header)
-IO_CONTRACT(Parameters__write, struct Parameters)
 IO_CONTRACT(Data__write, struct Data)
+/* Parameters::write: the same, and the position where the parameter section ended is recorded (the data start there) */
+long vf_rec_params_end;
+void contract_io_Parameters__write(const struct Parameters *self, vf_stream *f)
+__CPROVER_requires(vf_exc == 0 && __CPROVER_r_ok(self, sizeof(*self)) && __CPROVER_rw_ok(f, sizeof(*f)))
+__CPROVER_assigns(f->pos, f->len, f->fail, f->eof, vf_io_error_seen, vf_rec_params_end)
+__CPROVER_ensures(vf_exc == 0 && vf_rec_params_end == f->pos && f->eof == __CPROVER_old(f->eof))
+__CPROVER_ensures(__CPROVER_old(f->fail) ==> f->fail)
+__CPROVER_ensures((f->fail && !__CPROVER_old(f->fail)) ==> vf_io_error_seen)
+__CPROVER_ensures(__CPROVER_old(vf_io_error_seen) ==> vf_io_error_seen)
+__CPROVER_ensures(vf_io_error_seen ==> (__CPROVER_old(vf_io_error_seen) || f->fail))
+/* a successful parameter section ends at least one block after the header and within the device */
+__CPROVER_ensures(!f->fail ==> (f->pos >= 1024 && f->pos <= 4096 && f->len >= 18));
 
 void contract_c3d__write(const struct c3d *self, const vf_string *filePath)
 __CPROVER_requires(vf_exc == 0 && __CPROVER_r_ok(self, sizeof(*self)) && __CPROVER_r_ok(self->_header, sizeof(struct Header)) &&
                    __CPROVER_r_ok(self->_parameters, sizeof(struct Parameters)) && __CPROVER_r_ok(self->_data, sizeof(struct Data)) &&
                    __CPROVER_r_ok(filePath, sizeof(*filePath)) && !vf_io_error_seen)
-__CPROVER_assigns(vf_exc, vf_io_error_seen)
+__CPROVER_assigns(vf_exc, vf_io_error_seen, vf_rec_params_end, __CPROVER_object_whole(vf_file_img))
+/*@ C03 : c3d_write.header-data-start-word-points-at-the-data */
+__CPROVER_ensures(!vf_io_error_seen ==> ((unsigned)vf_file_img[16] | ((unsigned)vf_file_img[17] << 8)) == (unsigned)(vf_rec_params_end / 512 + 1))
 /*@ C15 : c3d_write.failure-is-reported */
 __CPROVER_ensures(vf_io_error_seen ==> vf_exc == VF_EXC_ios_failure)
 /*@ C15 : c3d_write.success-returns-normally */
